@@ -107,7 +107,14 @@ func permissionInterceptor(w http.ResponseWriter, r *http.Request) bool {
 	userName := r.Header.Get(usernameHeaderKey)
 	u := auth.Get(userName)
 
-	streamPath, _ := extractStreamPathAndExt(r.URL.Path)
+	streamPath, ext := extractStreamPathAndExt(r.URL.Path)
+	if ext == ".ts" {
+		// an HLS segment is requested as {stream path}/{sequence}.ts (see hls.GetTS):
+		// the pull right that counts is the one on the stream, not on "{path}/{seq}"
+		if i := strings.LastIndex(streamPath, "/"); i >= 0 {
+			streamPath = streamPath[:i]
+		}
+	}
 
 	if u == nil || !u.ValidatePermission(streamPath, auth.PullRight) {
 		http.Error(w, http.StatusText(http.StatusForbidden), http.StatusForbidden)
